@@ -376,8 +376,10 @@ impl<'a, 'b> SchemerContext<'a, 'b> {
                             }
                             StringLitOrFormat::Tpl(items) => {
                                 //
-                                match items.0.first() {
-                                    Some(TplLitTypeItem::StringConst(c)) => {
+                                // a template made of one constant is that literal; any other
+                                // template keeps all of its items
+                                match items.0.as_slice() {
+                                    [TplLitTypeItem::StringConst(c)] => {
                                         members.push(Runtype::single_string_const(c))
                                     }
                                     _ => members.push(Runtype::tpl_lit_type(items.clone())),
